@@ -22,7 +22,7 @@ fn mag(t: &mut Tape, decades: f64) -> f64 {
 }
 
 pub fn gen_eq(t: &mut Tape) -> EqCase {
-    let cfg = GenCfg { nmax: 7, mmax: 16, allow_psd: true, allow_nonsym: true, allow_empty_cones: true, psd_max: 3, soc_max: 5, magnitude: 3.0, near_prob: 0.25, extreme_alpha: true, full_rank: false };
+    let cfg = GenCfg { nmax: 7, mmax: 16, allow_psd: true, allow_nonsym: true, allow_empty_cones: true, psd_max: 3, soc_max: 5, magnitude: 3.0, near_prob: 0.25, extreme_alpha: true, full_rank: false, p_scale_decades: 0.0 };
     let n = t.usize_in(1, cfg.nmax);
     let cones = gen_cones(t, &cfg);
     let m: usize = cones.iter().map(|c| c.dim()).sum();
